@@ -217,11 +217,17 @@ def rustc_metadata(texts, workers=16):
     import concurrent.futures
     import hashlib
     import subprocess
-    deps = common.CACHE / "target-harness" / "debug" / "deps"
+    # the dev-profile build of the harness crate (lib/rust_harness.py: target-harness/<profile>/debug/deps)
+    deps = None
+    for cand in [common.TARGET_HARNESS / "dev" / "debug" / "deps", common.TARGET_HARNESS / "debug" / "deps"] + \
+            sorted(common.TARGET_HARNESS.glob("*/debug/deps")):
+        if list(cand.glob("libpdl_runtime-*.rlib")) and list(cand.glob("libbytes-*.rlib")):
+            deps = cand
+            break
+    if deps is None:
+        return None
     rt = sorted(deps.glob("libpdl_runtime-*.rlib"), key=lambda p: p.stat().st_mtime)
     by = sorted(deps.glob("libbytes-*.rlib"), key=lambda p: p.stat().st_mtime)
-    if not rt or not by:
-        return None
     work = common.CACHE / "c10"
     work.mkdir(exist_ok=True)
 
